@@ -125,17 +125,21 @@ func runScn(r *Report, sc *Scn, splitIdx, splitK, starveLo, starveHi int) {
 		return
 	}
 	for v := starveLo; v <= starveHi; v++ {
-		runScnOne(r, sc, 0, 1, v)
+		// goroutines are numbered in creation order: if no execution created goroutine number
+		// v, none creates a later one, and the remaining victims would repeat the base search
+		if maxGs := runScnOne(r, sc, 0, 1, v); maxGs > 0 && v >= maxGs {
+			break
+		}
 	}
 }
 
-func runScnOne(r *Report, sc *Scn, splitIdx, splitK, starve int) {
+func runScnOne(r *Report, sc *Scn, splitIdx, splitK, starve int) (maxGs int) {
 	prop, tier := r.Prop, r.Tier
 	r.CurName = sc.Name
 	if r.Expired() {
 		r.Skipped++
 		r.Exhaustive = false
-		return
+		return 0
 	}
 	r.Scenarios++
 	opts := sc.Opts
@@ -168,6 +172,7 @@ func runScnOne(r *Report, sc *Scn, splitIdx, splitK, starve int) {
 		return out
 	}}
 	st, viol := verifrt.Explore(vsc, opts)
+	maxGs = st.MaxGs
 	r.Execs += int64(st.Execs)
 	r.Complete += int64(st.Complete)
 	r.Pruned += int64(st.Pruned)
@@ -221,6 +226,7 @@ func runScnOne(r *Report, sc *Scn, splitIdx, splitK, starve int) {
 		r.Violations = append(r.Violations, ViolationRec{Sig: f.Sig, Msg: f.Msg, Scenario: sc.Name, Replay: path})
 	}
 	r.PerScenario = append(r.PerScenario, fmt.Sprintf("%s[%d/%d] execs=%d complete=%d states=%d steps=%d exh=%v viol=%d %.2fs", sc.Name, splitIdx, splitK, st.Execs, st.Complete, st.States, st.Steps, st.Exhaustive, len(viol), time.Since(ts).Seconds()))
+	return maxGs
 }
 
 // Job is one unit of work handed to a worker process.
